@@ -1,3 +1,6 @@
+pub mod c01;
+pub mod c02;
+pub mod c09;
 pub mod selftest;
 
 use mc_core::explore::{Ctx, Tier};
@@ -10,8 +13,10 @@ pub fn run(prop: &str, tier: Tier, only: Option<(String, String)>) -> i32 {
         c
     };
     match prop {
+        "C01" => c01::run(&mk("model_checking")),
+        "C02" => c02::run(&mk("model_checking")),
+        "C09" => c09::run(&mk("model_checking")),
         _ => {
-            let _ = mk;
             eprintln!("unknown property {}", prop);
             2
         }
